@@ -17,7 +17,8 @@ def parseOp : List String → Option Op
   | ["W", "bf", h] => some (.before (natOf h))
   -- a hook that registers another hook WHILE the commit runs: the commit walks the hooks registered before it
   -- (`hooks.reverse` of the pre-state) under the Once, so the late registration only lengthens a list that is
-  -- never walked again: for every observable it is the plain hook (the real run would show the late hook as hook9…)
+  -- never walked again: for every observable it is the plain hook (the real run would show the late hook as hook9…);
+  -- `Props/C13Late.late_hooks_never_run`: once the Once is spent no operation produces a hook event
   | ["W", "bfr", h] => some (.before (natOf h))
   | ["W", "st"] => some .status
   | ["W", "sz"] => some .size
